@@ -1,10 +1,12 @@
 use crate::ctx::Ctx;
+pub mod instr;
 pub mod offset;
 
 /// Area registry.  Each area generates its cases from `ctx.seed`, runs the implementation and
 /// records correspondence cases (`ctx.case`) and direct property failures (`ctx.fail`).
 pub fn run(area: &str, ctx: &Ctx, replay: Option<&str>) -> bool {
     match area {
+        "instr" => instr::run(ctx, replay),
         "offset" => offset::run(ctx, replay),
         _ => return false,
     }
